@@ -104,7 +104,10 @@ def shard_main(pid, tier, seed, shard, nshards, out_path):
     if os.environ.get("VF_SHRINK") == "1":
         phases = [Phase.generate, Phase.shrink]
 
-    def make_test(strategy, n, seed_value, use_phases):
+    def make_test(strategy, n, seed_value, use_phases, skip_first=False):
+        calls = [0]
+        n = n + 1 if skip_first else n
+
         @hypothesis.seed(seed_value)
         @settings(max_examples=n, database=None, deadline=None, derandomize=False,
                   report_multiple_bugs=False, phases=use_phases,
@@ -112,6 +115,9 @@ def shard_main(pid, tier, seed, shard, nshards, out_path):
                                          HealthCheck.large_base_example])
         @given(strategy)
         def test(case):
+            calls[0] += 1
+            if skip_first and calls[0] == 1:
+                return          # Hypothesis always starts with the simplest example (every choice minimal): not a scale case
             if time.time() - t0 > time_limit:
                 state.skipped_time += 1
                 return
@@ -122,19 +128,19 @@ def shard_main(pid, tier, seed, shard, nshards, out_path):
                 raise
         return test
 
-    passes = [(mod.strategy(), n_examples, seed * 1000 + shard, phases)]
+    passes = [(mod.strategy(), n_examples, seed * 1000 + shard, phases, False)]
     # deployment-scale pass: a few cases per shard from the module's strategy_big() (sizes at which real
     # recordings arrive: 10^5-10^7 samples, 10^3-10^4 windows, long headers); never shrunk (cost)
     big_total = int(os.environ.get("VF_BIG", getattr(mod, "BIG", {}).get(tier, 0)))
     if big_total and hasattr(mod, "strategy_big"):
         n_big = big_total // nshards + (1 if shard < big_total % nshards else 0)
         if n_big:
-            passes.append((mod.strategy_big(), n_big, seed * 1000 + shard + 500, [Phase.generate]))
+            passes.append((mod.strategy_big(), n_big, seed * 1000 + shard + 500, [Phase.generate], True))
 
     result = dict(shard=shard, status="ok")
     try:
-        for strategy, n, seed_value, use_phases in passes:
-            make_test(strategy, n, seed_value, use_phases)()
+        for strategy, n, seed_value, use_phases, skip_first in passes:
+            make_test(strategy, n, seed_value, use_phases, skip_first)()
     except Violation as v:
         case, v = state.failures[-1]
         result.update(status="violation", case=core.to_jsonable(case), message=v.message,
